@@ -226,7 +226,7 @@ impl MappingInfo {
         let low_addr = self.system_mapping_info.start_address;
         let high_addr = self.system_mapping_info.end_address;
         let mut offset = (sp_offset + size_of::<usize>() - 1) & !(size_of::<usize>() - 1);
-        while offset <= stack_copy.len() - size_of::<usize>() {
+        while offset + size_of::<usize>() <= stack_copy.len() {
             let addr = match std::mem::size_of::<usize>() {
                 4 => stack_copy[offset..]
                     .as_ref()
